@@ -750,7 +750,7 @@ pub fn run(tier: Tier, replay: Option<String>) -> i32 {
     let kinds = [Kind::OwnedAnon, Kind::OwnedFile, Kind::ExternalRaw, Kind::ExternalRawFile];
     #[cfg(feature = "xen")]
     let kinds = [Kind::XenUnix, Kind::XenGrant, Kind::XenForeign];
-    explore(&ctx, &kinds, if thorough { 7 } else { 6 }, if thorough { 6 } else { 5 });
+    explore(&ctx, &kinds, if thorough { 8 } else { 6 }, if thorough { 7 } else { 5 });
     size_sweep(&ctx, &kinds, thorough);
     ctx.set_exhaustive(true);
     ctx.finish()
